@@ -4,7 +4,10 @@ import glob, json, os, sys
 root = os.path.dirname(os.path.dirname(os.path.abspath(__file__)))
 what = sys.argv[1]
 seen = []
+enabled = [l.strip() for l in open(os.path.join(root, "checks", "enabled.txt")) if l.strip()]
 for p in sorted(glob.glob(os.path.join(root, "checks", "C*.json"))):
+    if os.path.basename(p)[:-5] not in enabled:
+        continue
     spec = json.load(open(p))
     if what == "modules":
         for m in (spec.get("props_modules") or [spec["props_module"]]):
